@@ -366,6 +366,15 @@
 		call $heap_alignment8
 		local.set $size
 
+		;; 0 字节的请求按 8 字节处理: 禁用 fixed 策略时,
+		;; 0 字节会命中 l128 的头节点(size=0), 破坏循环链表
+		local.get $size
+		i32.eqz
+		if
+			i32.const 8
+			local.set $size
+		end
+
 		;; 根据大小返回对应空闲链表的地址
 		;; 并返回对齐到8字节的大小
 		;; $free_list, $size = $heap_free_list_header.ptr_and_fixed_size(size)
